@@ -38,7 +38,7 @@ impl Prop for C36 {
             for _ in 0..len {
                 let w_start = if inflight.len() < max_inflight { 10 } else { 1 };
                 let w_done = if inflight.is_empty() { 0 } else { 12 };
-                match rng.weighted(&[w_start, w_done, w_done / 3, 1, 2, 1]) {
+                match rng.weighted(&[w_start, w_done, w_done / 3, 1, 5, 1]) {
                     0 => {
                         out.push("start".to_string());
                         if connected {
@@ -86,7 +86,10 @@ impl Prop for C36 {
                         connected = !connected || rng.chance(1, 3);
                         out.push(format!("connected {}", b(connected)));
                     }
-                    4 => out.push(format!("addsub {}", rng.range(1, 4))),
+                    // client-side subscription state: created enabled or disabled, publishing switched, the item
+                    // the notifications refer to added / removed, subscription deleted — responses for subscription
+                    // ids 1..3 then meet every combination (and id 4.. never exists)
+                    4 => out.push(sub_state_op(rng, 3)),
                     _ => {
                         // malformed / stale: completion for a request that is not in flight
                         match rng.below(3) {
@@ -107,6 +110,19 @@ impl Prop for C36 {
 
 /// a case driven through the real `SubscriptionEventLoop`: external triggers, responses (with and
 /// without `more_notifications`), failures of every kind, disconnects
+/// one change of the client-side state of a subscription with an id in 1..=max_id
+fn sub_state_op(rng: &mut Rng, max_id: i64) -> String {
+    let id = rng.range(1, max_id);
+    match rng.weighted(&[4, 2, 4, 3, 1, 2]) {
+        0 => format!("addsub {} 1", id),
+        1 => format!("addsub {} 0", id),
+        2 => format!("setpub {} {}", id, b(rng.chance(1, 2))),
+        3 => format!("additem {}", id),
+        4 => format!("delitem {}", id),
+        _ => format!("delsub {}", id),
+    }
+}
+
 fn gen_loop_case(rng: &mut Rng, tier: Tier, out: &mut Vec<String>) {
     let max_publish = *rng.pick(&[1u64, 2, 3]);
     out.push(format!("reset {}", max_publish));
@@ -123,7 +139,7 @@ fn gen_loop_case(rng: &mut Rng, tier: Tier, out: &mut Vec<String>) {
     let mut seq = 0u64;
     for _ in 0..len {
         let w_done = if inflight.is_empty() { 0 } else { 10 };
-        match rng.weighted(&[6, w_done, w_done / 2, if with_time { 0 } else { 1 }, 1, if with_time { 4 } else { 0 }]) {
+        match rng.weighted(&[6, w_done, w_done / 2, if with_time { 0 } else { 1 }, 3, if with_time { 4 } else { 0 }]) {
             0 => {
                 out.push("trigger".to_string());
                 if connected {
@@ -177,7 +193,7 @@ fn gen_loop_case(rng: &mut Rng, tier: Tier, out: &mut Vec<String>) {
             4 => match rng.below(3) {
                 0 => out.push(format!("lcomplete {} 1 1 0 data", next_id + rng.below(3))),
                 1 => out.push(format!("lfail {} timeout", next_id + rng.below(3))),
-                _ => out.push(format!("addsub {}", rng.range(1, 3))),
+                _ => out.push(sub_state_op(rng, 2)),
             },
             _ => {
                 out.push("age".to_string());
@@ -234,6 +250,8 @@ struct R {
     sent_inflight: BTreeMap<u64, Vec<Ack>>,
     any_failed: bool,
     any_keepalive: bool,
+    /// how often a subscription callback was handed a data value
+    callbacks: Arc<std::sync::atomic::AtomicUsize>,
     /// the REAL `SubscriptionEventLoop::run()` stream (created at the first loop op)
     sub_loop: Option<hk::VSubLoop>,
 }
@@ -287,6 +305,7 @@ impl R {
             sent_inflight: BTreeMap::new(),
             any_failed: false,
             any_keepalive: false,
+            callbacks: Arc::new(std::sync::atomic::AtomicUsize::new(0)),
             sub_loop,
         };
         // the real client polls the loop all the time: its first turn starts now (and computes its
@@ -320,10 +339,18 @@ impl R {
             .map(|(a, b)| format!("{}:{}", a, b))
             .collect();
         let ids: Vec<String> = self.flights.keys().map(|k| k.to_string()).collect();
-        let mut subs = hk::session_subscription_ids(&self.session);
-        subs.sort();
-        let subs: Vec<String> = subs.iter().map(|k| k.to_string()).collect();
-        format!("pending=[{}] inflight=[{}] subs=[{}]", pending.join(","), ids.join(","), subs.join(","))
+        // id : publishing_enabled : the item the data notifications refer to is present
+        let subs: Vec<String> = hk::session_subscription_flags(&self.session)
+            .iter()
+            .map(|(id, e, n)| format!("{}:{}:{}", id, b(*e), b(*n > 0)))
+            .collect();
+        format!(
+            "pending=[{}] inflight=[{}] subs=[{}] cb={}",
+            pending.join(","),
+            ids.join(","),
+            subs.join(","),
+            self.callbacks.load(std::sync::atomic::Ordering::SeqCst)
+        )
     }
 
     /// The property on one outgoing request: as a multiset, its acknowledgements must be exactly
@@ -739,8 +766,14 @@ impl Runner for R {
                 }
                 (format!("ok {}", self.state()), self.check_conservation())
             }
-            ["addsub", id] => {
+            ["addsub", id, rest @ ..] => {
                 let id: u32 = id.parse().unwrap();
+                let enabled = match rest {
+                    [] | ["1"] => true,
+                    ["0"] => false,
+                    _ => return ("bad-op".to_string(), Verdict::Ok),
+                };
+                let counter = self.callbacks.clone();
                 let sub = Subscription::new(
                     id,
                     Duration::from_secs(600),
@@ -748,10 +781,28 @@ impl Runner for R {
                     3,
                     0,
                     0,
-                    true,
-                    Box::new(DataChangeCallback::new(|_, _| {})),
+                    enabled,
+                    Box::new(DataChangeCallback::new(move |_, _| {
+                        counter.fetch_add(1, std::sync::atomic::Ordering::SeqCst);
+                    })),
                 );
                 hk::session_add_subscription(&self.session, sub);
+                (format!("ok {}", self.state()), self.check_conservation())
+            }
+            ["setpub", id, e] => {
+                let id: u32 = id.parse().unwrap();
+                hk::session_set_publishing_mode(&self.session, &[id], *e == "1");
+                (format!("ok {}", self.state()), self.check_conservation())
+            }
+            ["additem", id] => {
+                let id: u32 = id.parse().unwrap();
+                // item id 1, client handle 1: the handle the data notifications of this harness carry
+                hk::session_insert_monitored_item(&self.session, id, 1, 1);
+                (format!("ok {}", self.state()), self.check_conservation())
+            }
+            ["delitem", id] => {
+                let id: u32 = id.parse().unwrap();
+                hk::session_delete_monitored_items(&self.session, id, &[1]);
                 (format!("ok {}", self.state()), self.check_conservation())
             }
             ["delsub", id] => {
